@@ -1328,6 +1328,27 @@ for _p, _r in (("C07", "R07.3"), ("C01", "R01.21")):
 fire("c07-cons-cache-created-unless-inherited", "C07", TERMS,
      "            cls._cons_cache = WeakValueDictionary()\n", "            if not hasattr(cls, \"_cons_cache\"):\n                cls._cons_cache = WeakValueDictionary()\n", "R07.11", "FunsorMeta.__init__")
 
+for _p, _r in (("C04", "R04.26"), ("C05", "R05.14")):
+    fire(f"{_p.lower()}-tensor-subs-kept-inputs-tested-against-result-inputs", _p, TENSOR,
+         "        # Use advanced indexing to construct a simultaneous substitution.\n        index = []\n        for k, domain in self.inputs.items():\n            if k in subs:\n",
+         "        # Use advanced indexing to construct a simultaneous substitution.\n        index = []\n        for k, domain in self.inputs.items():\n            if k not in inputs:\n", _r, "Tensor.eager_subs")
+    silent(f"{_p.lower()}-s-tensor-subs-keys-as-frozenset", _p, TENSOR,
+           "        # Use advanced indexing to construct a simultaneous substitution.\n        index = []\n        for k, domain in self.inputs.items():\n            if k in subs:\n",
+           "        # Use advanced indexing to construct a simultaneous substitution.\n        index = []\n        substituted = frozenset(subs)\n        for k, domain in self.inputs.items():\n            if k in substituted:\n")
+fire("c16-op-call-shortcut-for-python-scalars", "C16", OP,
+     "        fn = cls.dispatcher.partial_call(*args[: cls.arity])\n", "        fn = cls.default if all(type(x) is float for x in args[: cls.arity]) else cls.dispatcher.partial_call(*args[: cls.arity])\n", "R16.13", "Op.__call__")
+fire("c16-deep-isinstance-handler-answers-false", "C16", "funsor/typing.py",
+     "    except TypeError:\n        return isinstance(obj, cls)\n", "    except TypeError:\n        return False\n", "R16.14", "deep_isinstance")
+fire("c17-memoize-does-not-report-totality", "C17", INTERP,
+     "    @property\n    def is_total(self):\n        return self.base_interpretation.is_total\n\n    def interpret(self, cls, *args):\n        key",
+     "    def interpret(self, cls, *args):\n        key", "R17.13", "Memoize")
+fire("c20-index-data-shape-assigned-in-place", "C20", TENSOR, _PAD_OLD,
+     "        rhs_data.shape = rhs_data.shape + (1,) * (len(lhs.output.shape) - 1)\n", "R20.1", "eager_getitem_tensor_tensor")
+fire("c15-logsumexp-shift-repaired-only-if-all-infinite", "C15", ARRAY,
+     "    amax = np.where(np.isfinite(amax), amax, 0.0)\n", "    if not np.isfinite(amax).any():\n        amax = np.zeros_like(amax)\n", "R15.8", "logsumexp")
+silent("c15-s-logsumexp-shift-repaired-via-mask-local", "C15", ARRAY,
+       "    amax = np.where(np.isfinite(amax), amax, 0.0)\n", "    finite = np.isfinite(amax)\n    amax = np.where(finite, amax, 0.0)\n")
+
 # ===== derived variants: must stay at the END of this file (they enumerate every rename() variant above) =====
 # `if c: A else: B` -> `if not c: B else: A` in the anchor functions (behaviour-preserving)
 def invert(prop, file, qual):
